@@ -63,8 +63,8 @@ def _plain(cls, k):
     return "__" + k[len(pre):] if k.startswith(pre) else k
 
 
-def yielding_names():
-    names = set(ROOTS)
+def yielding_names(extra=()):
+    names = set(ROOTS) | set(extra)
     table = {}
     for cls in CLASSES:
         for k, fn in _methods(cls).items():
@@ -85,11 +85,14 @@ class CoTime:
     node has work queued (or at quiescence) - idle ticks do nothing observable, scheduling them freely only multiplies
     schedules (stated assumption)."""
     work = None
+    polite = False        # delay-bounded harnesses: a sleeping thread lets every other runnable thread go first
 
     @staticmethod
     def sleep(seconds):
         def g():
-            if CoTime.work is None or seconds >= 1:
+            if CoTime.polite and (CoTime.work is None or seconds >= 1 or CoTime.work()):
+                yield CS.OTHER
+            elif CoTime.work is None or seconds >= 1:
                 yield
             else:
                 yield Timed(CoTime.work)
@@ -99,13 +102,14 @@ class CoTime:
 _BUILT = {}
 
 
-def build(lines=False):
-    """-> dict of coroutinised subclasses, keyed by the real class"""
+def build(lines=False, points=()):
+    """-> dict of coroutinised subclasses, keyed by the real class.  `points`: names of non-blocking calls (e.g. 'send') in
+    front of which a pure preemption point is inserted - used to make polling loops around them schedulable"""
     line_methods = LINE_METHODS if lines is True else set(lines or ())       # True: the default set; or an explicit list
-    key = tuple(sorted(line_methods))
+    key = (tuple(sorted(line_methods)), tuple(sorted(points)))
     if key in _BUILT:
         return _BUILT[key]
-    names = yielding_names()
+    names = yielding_names(points) - set(points)
     out = {}
 
     def co_body(cls):
@@ -114,7 +118,7 @@ def build(lines=False):
             plain = _plain(cls, k)
             if plain in names:
                 body[k] = CS.coroutinize(fn, names, lines=(plain in line_methods), mangle=cls.__name__, rebind={"time": CoTime},
-                                               locks=LOCK_ATTRS)
+                                               locks=LOCK_ATTRS, points=points)
         return body
     bodies = {cls: co_body(cls) for cls in CLASSES}
     for cls in CLASSES:
@@ -145,6 +149,12 @@ class CoSocket:
     def send(self, b):
         if self.closed:
             raise OSError(9, "bad file descriptor")
+        if self.send_plan and isinstance(self.send_plan[0], str):
+            k = self.send_plan[0]
+            if k != "pipe":                      # 'pipe' stays: every later send() fails the same way
+                self.send_plan.pop(0)
+            raise {"refused": ConnectionRefusedError(111, "Connection refused"), "pipe": BrokenPipeError(32, "Broken pipe"),
+                   "inprogress": BlockingIOError(11, "Resource temporarily unavailable")}[k]
         if len(b) == 0:
             return 0
         k = self.send_plan.pop(0) if self.send_plan else None
@@ -173,6 +183,7 @@ class CoSelector:
     def __init__(self):
         self.reg = {}
         self.closed = False
+        self.nothing_to_write = None
 
     def register(self, sock, mask, data=None):
         self.reg[id(sock)] = (sock, mask, data)
@@ -207,6 +218,13 @@ class CoSelector:
 
     def select(self, timeout=None):
         def g():
+            r = self._ready()
+            if r and self.nothing_to_write is not None and all(m == selectors.EVENT_WRITE and k.data is None for k, m in r) \
+                    and self.nothing_to_write():
+                # writable, but nothing to write and nothing to read: the real loop spins through effect-free passes until
+                # another thread changes something - one pass, then the others get the processor (fair scheduling of a spin)
+                yield CS.OTHER
+                return r
             yield Timed(lambda: bool(self._ready()))
             return self._ready()
         return _op(g())
@@ -215,15 +233,18 @@ class CoSelector:
 class CoNode:
     """a client/server association in state Open on coroutinised real code and stand-in primitives"""
 
-    def __init__(self, role="CLIENT", lines=False, watchdog=10 ** 6):
+    def __init__(self, role="CLIENT", lines=False, watchdog=10 ** 6, state=OPEN, points=(), reuse=None):
         from vf.standin import diameter, _forget_identifiers
-        K = build(lines)
+        K = build(lines, points)
         self.K = K
         import copy
-        self.d = copy.copy(diameter(role, 1, watchdog))      # a private (shallow) copy: the cached object stays untouched
-        _forget_identifiers()
-        self.d._base = self.d.get_base_messages()
-        self.d.__class__ = K[S.Diameter]
+        if reuse is not None:
+            self.d = reuse.d                                      # the same node object started again
+        else:
+            self.d = copy.copy(diameter(role, 1, watchdog))      # a private (shallow) copy: the cached object stays untouched
+            _forget_identifiers()
+            self.d._base = self.d.get_base_messages()
+            self.d.__class__ = K[S.Diameter]
         a = S.DiameterAssociation.__new__(K[S.DiameterAssociation])
         S.DiameterAssociation.__init__(a, self.d._connection, self.d._base)
         a._recv_messages, a._send_messages = HQueue(), HQueue()
@@ -235,6 +256,7 @@ class CoNode:
         t.selector.close()
         self.sock, self.sel = CoSocket(), CoSelector()
         t.sock, t.selector = self.sock, self.sel
+        self.sel.nothing_to_write = lambda: not t.data_stream and not t._send_buffer
         if role != "CLIENT":
             t.server_sock, t.server_selector = CoSocket(), CoSelector()
             t.server_selector.register(t.server_sock, selectors.EVENT_READ)
@@ -246,7 +268,8 @@ class CoNode:
                 setattr(a, name, HLock())
         t.is_connected = True
         t.events = []
-        self.sel.register(self.sock, selectors.EVENT_READ)
+        # Open / Closed(server, connection accepted): registered for READ; a client that has just called connect: READ|WRITE
+        self.sel.register(self.sock, selectors.EVENT_READ | (selectors.EVENT_WRITE if state == WAIT_CONN_ACK else 0))
         a.transport = t
         self.assoc, self.transport = a, t
         psm = SM.PeerStateMachine.__new__(K[SM.PeerStateMachine])
@@ -254,13 +277,16 @@ class CoNode:
         names = {CLOSED: SM.Closed, WAIT_CONN_ACK: SM.WaitConnAck, WAIT_I_CEA: SM.WaitInitiatorCEA, OPEN: SM.Open, WAIT_RETURNS: SM.WaitReturns,
                  WAIT_CONN_ACK_ELECT: SM.WaitConnAckElect, CLOSING: SM.Closing}
         psm.states = {k: K[c](a) for k, c in names.items()}
-        psm.current_state = psm.states[OPEN]
-        psm.current_state.name = OPEN
+        psm.current_state = psm.states[state]
+        psm.current_state.name = state
         psm.is_running = True
-        a.state_is_active = True
+        a.state_is_active = (state == OPEN)
         self.psm = psm
         self.d._association, self.d._peer_state_machine = a, psm
-        CoTime.work = lambda: (not a._recv_messages.empty() or not a._send_messages.empty() or not a.state_is_active
+        CoTime.polite = False
+        CoTime.work = lambda: (not a._recv_messages.empty() or not a._send_messages.empty()
+                               or (not a.state_is_active and isinstance(psm.current_state, SM.Open))
+                               or isinstance(psm.current_state, SM.WaitConnAck)
                                or (a.transport is not None and a.transport._stop_threads))
 
     # thread bodies (generators)
